@@ -16,7 +16,7 @@ use tokio::io::{AsyncRead, AsyncReadExt, AsyncWrite, AsyncWriteExt};
 
 #[derive(Serialize, Deserialize, Clone, Debug)]
 pub struct TcpConn {
-    /// 0 TCP-port remote, 1 Unix-socket remote, 2 SOCKS4, 3 SOCKS4a, 4 SOCKS5/IPv4, 5 SOCKS5/domain, 6 SOCKS5/IPv6, 7 HTTP CONNECT
+    /// 0 TCP-port remote, 1 Unix-socket remote, 2 SOCKS4, 3 SOCKS4a, 4 SOCKS5/IPv4, 5 SOCKS5/domain, 6 SOCKS5/IPv6, 7 HTTP CONNECT (host name), 8 HTTP CONNECT (IPv6 literal)
     pub entry: u8,
     pub start_ms: u64,
     /// write chunk sizes local client -> target / target -> local client
@@ -45,6 +45,11 @@ pub struct UdpClient {
     /// association (one flow) talks to several targets
     #[serde(default)]
     pub hops: Vec<usize>,
+    /// SOCKS5 associations only: before exchange k (k >= 1) the client's socket also emits a
+    /// datagram the relay cannot parse (1 = one byte, 2 = unknown address type, 3 = truncated
+    /// address, 4 = FRAG != 0); RFC 1928: the relay drops such datagrams silently
+    #[serde(default)]
+    pub junk: Vec<u8>,
 }
 #[derive(Serialize, Deserialize, Clone, Debug)]
 pub struct C01Plan {
@@ -76,6 +81,7 @@ struct UdpRes {
     lost: usize,
     problems: Vec<String>,
     done: bool,
+    junk_sent: usize,
 }
 
 const SERVER_PORT: u16 = 8080;
@@ -205,8 +211,9 @@ async fn entry_handshake<S: AsyncRead + AsyncWrite + Unpin>(s: &mut S, entry: u8
             }
             Ok(())
         }
-        7 => {
-            let req = format!("CONNECT target.sim:{port} HTTP/1.1\r\nHost: target.sim:{port}\r\n\r\n");
+        7 | 8 => {
+            let host = if entry == 8 { "[::1]" } else { "target.sim" };
+            let req = format!("CONNECT {host}:{port} HTTP/1.1\r\nHost: {host}:{port}\r\n\r\n");
             s.write_all(req.as_bytes()).await.map_err(e)?;
             let head = read_until_crlfcrlf(s).await?;
             let line = String::from_utf8_lossy(&head);
@@ -296,6 +303,16 @@ async fn target_conn(mut s: TcpStream, i: usize, c: TcpConn, res: Rc<RefCell<Vec
             r[i].target_eof = eof;
             format!("silent target saw eof={eof} err={err:?}")
         }
+        5 => {
+            // answers, half-closes, never reads, and closes a while later: the local client, still
+            // uploading, must find its connection closed rather than hang
+            let (rd, mut wr) = tokio::io::split(s);
+            let w = send_pattern(&mut wr, i, 1, &c.down, c.down_gap_ms).await;
+            wr.shutdown().await.ok();
+            tokio::time::sleep(ms(c.target_read_delay_ms.max(200))).await;
+            drop((rd, wr));
+            format!("answered {w:?}, closed without reading")
+        }
         1 => {
             let (mut rd, mut wr) = tokio::io::split(s);
             let w = send_pattern(&mut wr, i, 1, &c.down, c.down_gap_ms).await;
@@ -384,6 +401,19 @@ async fn udp_client(ci: usize, c: UdpClient, res: Rc<RefCell<Vec<UdpRes>>>, faul
             pkt.extend(target_port.to_be_bytes());
         }
         pkt.extend(&payload);
+        if c.via_socks && k >= 1 {
+            let junk: Option<Vec<u8>> = match c.junk.get(k).copied().unwrap_or(0) {
+                1 => Some(vec![0]),
+                2 => Some(vec![0, 0, 0, 9, 1, 2, 3, 4, 0, 80, b'x']),
+                3 => Some(vec![0, 0, 0, 4, 1, 2, 3]),
+                4 => Some(vec![0, 0, 1, 1, 127, 0, 0, 1, 0, 80, b'f']),
+                _ => None,
+            };
+            if let Some(j) = junk {
+                sock.send_to(&j, dest).await.ok();
+                res.borrow_mut()[ci].junk_sent += 1;
+            }
+        }
         if sock.send_to(&pkt, dest).await.is_err() {
             res.borrow_mut()[ci].problems.push("send_to failed".into());
             break;
@@ -477,7 +507,7 @@ pub fn run(plan: &C01Plan, sched: &Sched) -> Outcome {
                     if c.target_mode == 3 {
                         continue;
                     }
-                    let bind = if c.entry == 6 { format!("[::1]:{}", 10_000 + i) } else { format!("127.0.0.1:{}", 10_000 + i) };
+                    let bind = if c.entry == 6 || c.entry == 8 { format!("[::1]:{}", 10_000 + i) } else { format!("127.0.0.1:{}", 10_000 + i) };
                     let l = TcpListener::bind(bind.as_str()).await.expect("bind target");
                     let (c, res) = (c.clone(), cres2.clone());
                     tokio::task::spawn_local(async move {
@@ -532,7 +562,7 @@ pub fn run(plan: &C01Plan, sched: &Sched) -> Outcome {
                             _ => {
                                 let port = match c.entry {
                                     0 => 7000 + i as u16,
-                                    7 => HTTP_PORT,
+                                    7 | 8 => HTTP_PORT,
                                     _ => SOCKS_PORT,
                                 };
                                 match TcpStream::connect(("127.0.0.1", port)).await {
@@ -616,7 +646,7 @@ pub fn run(plan: &C01Plan, sched: &Sched) -> Outcome {
     if client_state != "running" {
         o.violate("C01:client-exited", format!("the client ended during the run: {client_state}"));
     }
-    let entry_name = |e: u8| ["TCP-port remote", "Unix-socket remote", "SOCKS4", "SOCKS4a", "SOCKS5/IPv4", "SOCKS5/domain", "SOCKS5/IPv6", "HTTP CONNECT"][e.min(7) as usize];
+    let entry_name = |e: u8| ["TCP-port remote", "Unix-socket remote", "SOCKS4", "SOCKS4a", "SOCKS5/IPv4", "SOCKS5/domain", "SOCKS5/IPv6", "HTTP CONNECT", "HTTP CONNECT/IPv6 literal"][e.min(8) as usize];
     for (i, c) in plan.tcp.iter().enumerate() {
         let r = &cres[i];
         let (up, down) = (total(&c.up), total(&c.down));
@@ -680,6 +710,13 @@ pub fn run(plan: &C01Plan, sched: &Sched) -> Outcome {
                 // (client_done is set), and whatever arrived is a prefix
                 o.probe("target-refused-or-closed-early", 1);
             }
+            5 => {
+                // (client_done is set: checked above) the uploader was not left hanging
+                o.probe("target-closed-without-reading", 1);
+                if up >= 1024 * 1024 {
+                    o.probe("target-closed-without-reading-while-uploader-out-of-credit", 1);
+                }
+            }
             _ => {
                 // silent target: it must see the local client's close
                 if r.target_done.is_none() {
@@ -706,6 +743,12 @@ pub fn run(plan: &C01Plan, sched: &Sched) -> Outcome {
             o.violate(class, format!("{p}; {desc}"));
         }
         o.probe(if c.via_socks { "udp-via-socks5" } else { "udp-via-remote" }, r.replies_ok as u64);
+        if r.junk_sent > 0 {
+            o.probe("fault:unparseable-datagram-to-socks5-relay", r.junk_sent as u64);
+        }
+        if c.gap_ms > 10_000 && c.sizes.len() > 1 {
+            o.probe("udp-client-idle-longer-than-the-prune-timeout", 1);
+        }
         if c.sizes.iter().any(|s| *s < 4) {
             o.probe("udp-payload-under-4-bytes", 1);
         }
